@@ -49,7 +49,7 @@ func checkC05(c *core.Ctx, r *core.Report) {
 		"(6) the merger that joins the sort-index and the plain sub-searcher of a pushed-down sort is configured from a private copy of the sort expression whose row limit is the maximum (the plain stream is not in sort-key order, so the merger must not truncate); " +
 		"(2) SIBLING — sortProcessor.less and lessDirectRead decide through the same compareValues; " +
 		"(4) the sort-index search's decision to stop at the limit is control-dependent on the number of sort keys (the index orders by the first key only); " +
-		"(5) the two predicates of the time-ordered segment scheduler mean `segment overlaps the released range` and `segment lies wholly in it` for newest-first and oldest-first order (truth tables), and getQSRSToProcess admits and retires segments through them; " +
+		"(5) in the time-ordered segment scheduler (getQSRSToProcess) the condition under which a segment is added to the round, and the condition under which it is removed from the pending list, resolve per sort mode — through boolean locals, same-package predicate functions and negations — to exactly `end >= cut-off` / `start <= cut-off` (admission, newest-first / oldest-first) and `start >= cut-off` / `end <= cut-off` (retirement): segment overlaps the released range, segment lies wholly in it; " +
 		"(3) newest-first cut-off — in Searcher.fetchRRCs the raw end time returned by getNextBlocks is used only as operand of the max/min clamp against the segment cut-off timestamp, or on paths where the sort mode is neither newest-first nor oldest-first: records beyond the cut-off are never released while unread segments may still hold newer ones."
 	r.NotCovered = "the streaming merge itself (getNextBlocks, unsent records), limit = prefix, pagination completeness, tie-group completion of the sort-index path: all depend on timestamp values and block histories"
 
@@ -369,103 +369,7 @@ func checkC05(c *core.Ctx, r *core.Report) {
 	}
 
 	// ---------------------------------------------------------------- (5) admission of segments to the time-ordered scheduler
-	{
-		pkgP := c.Pkg("pkg/segment/query/processor")
-		info := pkgP.TypesInfo
-		isMode := func(t types.Type) bool {
-			n, ok := t.(*types.Named)
-			return ok && n.Obj().Name() == "sortMode"
-		}
-		// predicate tables: name -> mode -> (operator, segment bound)
-		want := map[string]map[string][2]string{
-			"shouldProcessQSR":         {"recentFirst": {">=", "qsr.GetEndEpochMs()"}, "recentLast": {"<=", "qsr.GetStartEpochMs()"}},
-			"willProcessQSRCompletely": {"recentFirst": {">=", "qsr.GetStartEpochMs()"}, "recentLast": {"<=", "qsr.GetEndEpochMs()"}},
-		}
-		meaning := map[string]string{
-			"shouldProcessQSR":         "a segment is read in this round iff it overlaps the released range (newest-first: end >= cut-off; oldest-first: start <= cut-off)",
-			"willProcessQSRCompletely": "a segment is retired iff it lies wholly in the released range (newest-first: start >= cut-off; oldest-first: end <= cut-off)",
-		}
-		for _, pname := range []string{"shouldProcessQSR", "willProcessQSRCompletely"} {
-			fn := c.TryFn("pkg/segment/query/processor", "Searcher."+pname)
-			if fn == nil {
-				r.Violation("ORDERTABLE", "processor.Searcher."+pname+":exists", "-", "the predicate "+pname+" no longer exists: "+meaning[pname]+" is not decided by its own predicate any more")
-				continue
-			}
-			fd := funcDeclOf(fn)
-			sw := core.SwitchArms(info, fd.Body, isMode)
-			if len(sw) != 1 {
-				r.Undecided("ORDERTABLE", "processor.Searcher."+pname, c.Pos(fn.Pos()), "expected one switch over the sort mode")
-				continue
-			}
-			for mode, spec := range want[pname] {
-				construct := fmt.Sprintf("processor.Searcher.%s:%s", pname, mode)
-				stmts, ok := sw[0][mode]
-				if !ok {
-					r.Violation("ORDERTABLE", construct, c.Pos(fn.Pos()), "no case for this sort mode")
-					continue
-				}
-				f, err := core.FormulaOfStmts(stmts, nil)
-				if err != nil {
-					r.Undecided("ORDERTABLE", construct, c.Pos(stmts[0].Pos()), "arm is not a plain comparison: "+err.Error())
-					continue
-				}
-				ops := core.Operands(f)
-				cut := ""
-				for _, o := range ops {
-					if strings.HasSuffix(o, "cutOffTimestampInMs") {
-						cut = o
-					}
-				}
-				if len(ops) != 2 || cut == "" || (ops[0] != spec[1] && ops[1] != spec[1]) {
-					r.Violation("ORDERTABLE", construct, c.Pos(stmts[0].Pos()), fmt.Sprintf("the arm compares %v; it must compare %s with the cut-off: %s", ops, spec[1], meaning[pname]))
-					continue
-				}
-				op := token.GEQ
-				if spec[0] == "<=" {
-					op = token.LEQ
-				}
-				wantF := core.Atom{Op: op, L: spec[1], R: cut}
-				bad := ""
-				for _, rank := range core.Orderings(ops, nil) {
-					if core.Eval(f, rank) != core.Eval(wantF, rank) {
-						bad = core.RankString(rank)
-						break
-					}
-				}
-				r.Check(bad == "", "ORDERTABLE", construct, c.Pos(stmts[0].Pos()), "means "+spec[1]+" "+spec[0]+" cut-off on every ordering", fmt.Sprintf("the arm does not mean `%s %s cut-off` (differs for %s): %s; otherwise records of a partially overlapping segment are released after older (newer) ones", spec[1], spec[0], bad, meaning[pname]))
-			}
-		}
-		// getQSRSToProcess admits through shouldProcessQSR and retires through willProcessQSRCompletely
-		get := c.Fn("pkg/segment/query/processor", "Searcher.getQSRSToProcess")
-		should := c.TryObj("pkg/segment/query/processor", "Searcher.shouldProcessQSR")
-		will := c.TryObj("pkg/segment/query/processor", "Searcher.willProcessQSRCompletely")
-		admitted, retired := false, false
-		for _, b := range get.Blocks {
-			for _, in := range b.Instrs {
-				call, ok := in.(*ssa.Call)
-				if !ok {
-					continue
-				}
-				// append(qsrs, qsr) under shouldProcessQSR
-				if bi, ok := call.Call.Value.(*ssa.Builtin); ok && bi.Name() == "append" && should != nil {
-					for _, sc := range callsTo(get, should) {
-						if core.BoolKnownAt(sc, b) == core.Yes {
-							admitted = true
-						}
-					}
-				}
-				if f := core.CalleeFunc(call); f != nil && f.Name() == "Remove" && will != nil {
-					for _, wc := range callsTo(get, will) {
-						if core.BoolKnownAt(wc, b) == core.Yes {
-							retired = true
-						}
-					}
-				}
-			}
-		}
-		r.Check(admitted, "GUARD", "processor.Searcher.getQSRSToProcess:admits-through-shouldProcessQSR", c.Pos(get.Pos()), "a segment is added to the round where shouldProcessQSR answered true", "segments are not admitted to a round through shouldProcessQSR: a segment that partially overlaps the released range is read too late and its newer records come out after older ones")
-		r.Check(retired, "GUARD", "processor.Searcher.getQSRSToProcess:retires-through-willProcessQSRCompletely", c.Pos(get.Pos()), "a segment is removed from the pending list where willProcessQSRCompletely answered true", "segments are not retired through willProcessQSRCompletely")
-	}
+	checkSchedulerAdmission(c, r)
 }
 
 // funcValues resolves a function-typed value to the functions it can denote
